@@ -173,8 +173,11 @@ def restructured(ctx, result):
     from collections import Counter
     now, was = statement_bag(ctx.repo, f), Counter(was)
     delta = sum(((now - was) + (was - now)).values())
-    if delta > EDIT_LIMIT:
-        return f"{q} has been rewritten since the obligations were bound ({delta} statements added or removed, limit {EDIT_LIMIT})"
+    # for a small function the absolute limit would allow a complete rewrite: there the limit is half its statements (at least 4, i.e.
+    # two rewritten statements)
+    limit = min(EDIT_LIMIT, max(4, (3 * sum(was.values())) // 4))
+    if delta > limit:
+        return f"{q} has been rewritten since the obligations were bound ({delta} statements added or removed, limit {limit})"
     return None
 
 
